@@ -11,22 +11,37 @@ Definition ok_or_err {E A} (r : res E A) : Prop :=
   match r with Ok _ | Err _ => True | Panic _ | OutOfFuel => False end.
 
 (* where a view may point *)
-Definition view_ok (nbytes cap : nat) (v : view) : Prop :=
-  (v_off v + v_len v <= match v_src v with Input => nbytes | Scratch => cap end)%nat.
-Definition slice_ok (nbytes cap : nat) (s : slice) : Prop :=
-  (s_off s + length (s_data s) <= match s_src s with Input => nbytes | Scratch => cap end)%nat.
+(* cap = Some c: the scratch buffer has c bytes; None: no claim about the scratch buffer *)
+Definition in_buf (nbytes : nat) (cap : option nat) (src : source) (n : nat) : Prop :=
+  match src with
+  | Input => (n <= nbytes)%nat
+  | Scratch => match cap with Some c => (n <= c)%nat | None => True end
+  end.
+Definition view_ok (nbytes : nat) (cap : option nat) (v : view) : Prop :=
+  in_buf nbytes cap (v_src v) (v_off v + v_len v).
+(* with a claim about the scratch buffer (cap = Some _) comes the claim that slices hold bytes *)
+Definition slice_ok (nbytes : nat) (cap : option nat) (s : slice) : Prop :=
+  in_buf nbytes cap (s_src s) (s_off s + length (s_data s))
+  /\ (cap = None \/ bytes_ok (s_data s) = true).
+
+Lemma in_buf_le nb cap src n m : in_buf nb cap src n -> (m <= n)%nat -> in_buf nb cap src m.
+Proof. unfold in_buf. destruct src; [|destruct cap]; intros; try exact I; lia. Qed.
 
 Lemma slice_take_ok nb cap n s : slice_ok nb cap s -> slice_ok nb cap (slice_take n s).
 Proof.
-  unfold slice_ok, slice_take. cbn [s_src s_off s_data]. rewrite firstn_length. lia.
+  unfold slice_ok, slice_take. cbn [s_src s_off s_data]. intros [H Hb]. split.
+  - apply (in_buf_le _ _ _ _ _ H). rewrite firstn_length. lia.
+  - destruct Hb as [Hb|Hb]; [left; exact Hb|right; apply bytes_ok_firstn, Hb].
 Qed.
 Lemma slice_skip_ok nb cap n s : slice_ok nb cap s -> (n <= length (s_data s))%nat ->
   slice_ok nb cap (slice_skip n s).
 Proof.
-  unfold slice_ok, slice_skip. cbn [s_src s_off s_data]. rewrite skipn_length. lia.
+  unfold slice_ok, slice_skip. cbn [s_src s_off s_data]. intros [H Hb] Hn. split.
+  - apply (in_buf_le _ _ _ _ _ H). rewrite skipn_length. lia.
+  - destruct Hb as [Hb|Hb]; [left; exact Hb|right; apply bytes_ok_skipn, Hb].
 Qed.
 Lemma view_of_ok nb cap s : slice_ok nb cap s -> view_ok nb cap (view_of s).
-Proof. unfold slice_ok, view_ok, view_of. cbn [v_src v_off v_len]. exact (fun H => H). Qed.
+Proof. unfold slice_ok, view_ok, view_of. cbn [v_src v_off v_len]. exact (fun H => proj1 H). Qed.
 
 Lemma bytes_ok_cons b bs : bytes_ok (b :: bs) = true -> byteb b = true /\ bytes_ok bs = true.
 Proof. unfold bytes_ok. cbn [forallb]. intros H. apply andb_true_iff in H. exact H. Qed.
@@ -94,25 +109,32 @@ Proof.
   exists [a; b; c]. split; [reflexivity|]. split; [reflexivity|]. split; [reflexivity|discriminate].
 Qed.
 
-Lemma payload_slice6_spec bs h ws payload cap :
+Lemma payload_slice6_spec bs h ws payload cap ocap :
   bytes_ok bs = true -> header_of6 bs = Some (h, ws, payload) ->
   land_ne0 (ph6_flags h) PACKETFLAG_CONNLESS = false ->
   Z.of_nat (length bs) >? MAX_PACKETSIZE = false -> (1400 <= cap)%nat ->
-  (forall y c d, decomp y c = Some d -> (length d <= c)%nat) ->
+  match ocap with
+  | Some c0 => c0 = cap /\ (forall y c d, decomp y c = Some d -> (length d <= c)%nat /\ bytes_ok d = true)
+  | None => True
+  end ->
   match payload_slice6 decomp bs (Some cap) (ph6_flags h) payload with
-  | Ok p => slice_ok (length bs) cap p /\ s_off p = 3%nat
+  | Ok p => slice_ok (length bs) ocap p /\ s_off p = 3%nat
   | Err e => e = E6Compression
   | _ => False
   end.
 Proof.
-  intros Hb Eh Fc Hlen Hcap Hd. destruct (header_of6_ok bs h ws payload Hb Eh) as (_ & Hl & _).
+  intros Hb Eh Fc Hlen Hcap Hd. destruct (header_of6_ok bs h ws payload Hb Eh) as (_ & Hl & hp0 & _ & _ & Ebs).
+  assert (Hpb : bytes_ok payload = true).
+  { rewrite Ebs, bytes_ok_app in Hb. apply andb_true_iff in Hb as [_ Hb]. exact Hb. }
   unfold payload_slice6. destruct (land_ne0 (ph6_flags h) PACKETFLAG_COMPRESSION) eqn:Fz.
   - destruct (decompress6_spec bs h ws payload cap Hb Eh Fc Fz Hlen Hcap) as (hb & Hhb & E & Hof & Hnn).
     rewrite E. destruct (decomp payload (cap - 3)%nat) as [d|] eqn:Ed; [|reflexivity].
     cbv beta iota. rewrite Hof. destruct (PacketHeaderPacked6_of_bytes hb) as [[p0 r0]|]; [|contradiction].
-    unfold slice_ok. cbn [s_src s_off s_data]. change (Z.to_nat HEADER_SIZE) with 3%nat.
-    apply Hd in Ed. split; [lia|reflexivity].
-  - unfold slice_ok. cbn [s_src s_off s_data]. change (Z.to_nat HEADER_SIZE) with 3%nat. split; [lia|reflexivity].
+    unfold slice_ok, in_buf. cbn [s_src s_off s_data]. change (Z.to_nat HEADER_SIZE) with 3%nat.
+    split; [|reflexivity]. destruct ocap as [c0|]; [|split; [exact I|left; reflexivity]].
+    destruct Hd as [-> Hd]. apply Hd in Ed as [Ed1 Ed2]. split; [lia|right; exact Ed2].
+  - unfold slice_ok, in_buf. cbn [s_src s_off s_data]. change (Z.to_nat HEADER_SIZE) with 3%nat.
+    split; [|reflexivity]. split; [lia|right; exact Hpb].
 Qed.
 
 Lemma has_nul_firstn rest : forall n, (n <= find_nul rest)%nat -> has_nul (firstn n rest) = false.
@@ -128,9 +150,10 @@ Proof. induction rest as [|b r IH]; cbn [find_nul length]; [lia|]. destruct (b =
 
 (* what the reader returns: nothing, an error, or a value inside the size limits whose
    views lie inside the buffers *)
-Definition good_result6 (nb cap : nat) (r : rres6) : Prop :=
+Definition good_result6 (nb : nat) (cap : option nat) (r : rres6) : Prop :=
   match snd r with
   | Ok (pk, vs) => expressible6 pk = true /\ Forall (view_ok nb cap) vs
+                   /\ (cap = None \/ packet_bytes_ok6 pk = true)
   | Err _ => True
   | _ => False
   end.
@@ -155,17 +178,22 @@ Qed.
 Lemma read_control6_spec ws h (tok : option token) ack p nb cap :
   slice_ok nb cap p -> (0 <=? ack) && (ack <? 1024) = true ->
   match tok with Some t => token_ok t | None => true end = true ->
+  (cap = None \/ match tok with Some t => bytes_ok t | None => true end = true) ->
   good_result6 nb cap (read_control6 ws h tok ack p).
 Proof.
-  intros Hs Hack Htok. unfold read_control6, good_result6.
+  intros Hs Hack Htok Htb. unfold read_control6, good_result6.
   destruct (s_data p) as [|control rest] eqn:Ed; [exact I|].
   assert (Hex : forall c, match c with C6Close _ => False | _ => True end ->
             expressible6 (P6Connected ack tok (P6Control c)) = true).
   { intros c Hc. apply expressible6_connected; [exact Hack|exact Htok|]. destruct c; try reflexivity. contradiction. }
-  destruct (control =? CTRLMSG_KEEPALIVE); [cbn [snd]; split; [apply Hex; exact I|constructor]|].
-  destruct (control =? CTRLMSG_CONNECT); [cbn [snd]; split; [apply Hex; exact I|constructor]|].
-  destruct (control =? CTRLMSG_CONNECTACCEPT); [cbn [snd]; split; [apply Hex; exact I|constructor]|].
-  destruct (control =? CTRLMSG_ACCEPT); [cbn [snd]; split; [apply Hex; exact I|constructor]|].
+  assert (Hbx : forall c, match c with C6Close _ => False | _ => True end ->
+            cap = None \/ packet_bytes_ok6 (P6Connected ack tok (P6Control c)) = true).
+  { intros c Hc. destruct Htb as [Htb|Htb]; [left; exact Htb|right]. cbn [packet_bytes_ok6].
+    rewrite Htb. destruct c; try reflexivity. contradiction. }
+  destruct (control =? CTRLMSG_KEEPALIVE); [cbn [snd]; split; [apply Hex; exact I|split; [constructor|apply Hbx; exact I]]|].
+  destruct (control =? CTRLMSG_CONNECT); [cbn [snd]; split; [apply Hex; exact I|split; [constructor|apply Hbx; exact I]]|].
+  destruct (control =? CTRLMSG_CONNECTACCEPT); [cbn [snd]; split; [apply Hex; exact I|split; [constructor|apply Hbx; exact I]]|].
+  destruct (control =? CTRLMSG_ACCEPT); [cbn [snd]; split; [apply Hex; exact I|split; [constructor|apply Hbx; exact I]]|].
   destruct (control =? CTRLMSG_CLOSE); [|exact I].
   cbn [snd]. change (Z.to_nat CTRLMSG_CLOSE_REASON_LENGTH) with 127%nat.
   set (nul := Nat.min (find_nul rest) 127).
@@ -174,8 +202,11 @@ Proof.
   - apply expressible6_connected; [exact Hack|exact Htok|]. unfold slice_take. cbn [s_data]. rewrite Hskip.
     rewrite has_nul_firstn by (unfold nul; lia). cbn [negb andb].
     apply Z.leb_le. rewrite firstn_length. unfold nul, CTRLMSG_CLOSE_REASON_LENGTH. lia.
-  - constructor; [|constructor]. apply view_of_ok, slice_take_ok, slice_skip_ok; [exact Hs|].
-    rewrite Ed. cbn [length]. lia.
+  - assert (Hrs : slice_ok nb cap (slice_take nul (slice_skip 1 p))).
+    { apply slice_take_ok, slice_skip_ok; [exact Hs|]. rewrite Ed. cbn [length]. lia. }
+    split; [constructor; [apply view_of_ok, Hrs|constructor]|].
+    destruct Hrs as [_ [Hn|Hrb]]; [left; exact Hn|].
+    destruct Htb as [Htb|Htb]; [left; exact Htb|right]. cbn [packet_bytes_ok6]. rewrite Htb. cbn [andb]. exact Hrb.
 Qed.
 
 Lemma read_payload6_spec ws h hint p nb cap :
@@ -201,28 +232,41 @@ Proof.
   assert (Htok : match tok with Some t => token_ok t | None => true end = true).
   { unfold tok. destruct has_token; [|reflexivity]. cbn [andb] in Etm. apply Z.ltb_ge in Etm. unfold TOKEN_SIZE in Etm.
     unfold token_ok. apply Nat.eqb_eq. rewrite skipn_length. lia. }
+  assert (Htb : cap = None \/ match tok with Some t => bytes_ok t | None => true end = true).
+  { destruct Hs as [_ [Hc|Hsb]]; [left; exact Hc|right]. unfold tok. destruct has_token; [|reflexivity].
+    apply bytes_ok_skipn, Hsb. }
   destruct (land_ne0 (ph6_flags h) PACKETFLAG_CONTROL).
   - apply read_control6_spec; assumption.
-  - unfold good_result6. cbn [snd]. split; [|constructor; [apply view_of_ok, Hp'|constructor]].
+  - unfold good_result6. cbn [snd]. split; [|split; [constructor; [apply view_of_ok, Hp'|constructor]|]].
+    2:{ destruct Hp' as [_ [Hc|Hpb]]; [left; exact Hc|].
+        destruct Htb as [Htb|Htb]; [left; exact Htb|right]. cbn [packet_bytes_ok6].
+        apply andb_true_iff. split; [exact Htb|exact Hpb]. }
     apply expressible6_connected; [exact Hack|exact Htok|].
     assert (Hl' : Z.of_nat (length (s_data p')) + (match tok with Some _ => TOKEN_SIZE | None => 0 end) <= 1397).
     { unfold p', tok, TOKEN_SIZE. destruct has_token.
       - cbn [andb] in Etm. apply Z.ltb_ge in Etm. unfold TOKEN_SIZE in Etm.
         unfold slice_take. cbn [s_data]. rewrite firstn_length. lia.
       - lia. }
-    unfold MAX_PACKETSIZE, HEADER_SIZE. lia.
+    unfold MAX_PACKETSIZE, HEADER_SIZE.
+    apply andb_true_iff; split; [apply andb_true_iff; split; [apply Z.leb_le|apply Z.ltb_lt]|apply Z.leb_le]; try lia.
+    exact Hl'.
 Qed.
 
 (* C06: the reader is total, its views are in bounds, its values are inside the size limits *)
-Theorem read6_good bs hint cap : bytes_ok bs = true -> (1400 <= cap)%nat ->
-  (forall y c d, decomp y c = Some d -> (length d <= c)%nat) ->
-  good_result6 (length bs) cap (read6 decomp bs hint cap).
+Theorem read6_good bs hint cap ocap : bytes_ok bs = true -> (1400 <= cap)%nat ->
+  match ocap with
+  | Some c0 => c0 = cap /\ (forall y c d, decomp y c = Some d -> (length d <= c)%nat /\ bytes_ok d = true)
+  | None => True
+  end ->
+  good_result6 (length bs) ocap (read6 decomp bs hint cap).
 Proof.
   intros Hb Hcap Hd. unfold read6, read_impl6.
   replace (Z.of_nat cap <? MAX_PACKETSIZE) with false by (symmetry; apply Z.ltb_ge; unfold MAX_PACKETSIZE; lia).
   destruct (Z.of_nat (length bs) >? MAX_PACKETSIZE) eqn:Elen; [exact I|].
   destruct (header_of6 bs) as [[[h ws] payload]|] eqn:Eh; [|exact I].
-  destruct (header_of6_ok bs h ws payload Hb Eh) as (Hr & Hl & _).
+  destruct (header_of6_ok bs h ws payload Hb Eh) as (Hr & Hl & hp0 & _ & _ & Ebs).
+  assert (Hpb : bytes_ok payload = true).
+  { rewrite Ebs, bytes_ok_app in Hb. apply andb_true_iff in Hb as [_ Hb']. exact Hb'. }
   destruct (land_ne0 (ph6_flags h) PACKETFLAG_CONNLESS) eqn:Fc.
   - unfold read_connless6. destruct (Z.of_nat (length payload) <? PADDING_SIZE_CONNLESS) eqn:Ep; [exact I|].
     apply Z.ltb_ge in Ep. unfold PADDING_SIZE_CONNLESS in Ep.
@@ -230,12 +274,52 @@ Proof.
     unfold good_result6. cbn [snd s_data]. change (Z.to_nat PADDING_SIZE_CONNLESS) with 3%nat.
     change (Z.to_nat HEADER_SIZE) with 3%nat. split.
     + cbn [expressible6]. apply Z.leb_le. rewrite skipn_length. unfold MAX_PACKETSIZE, HEADER_SIZE, PADDING_SIZE_CONNLESS. lia.
-    + constructor; [|constructor]. unfold view_ok, view_of. cbn [v_src v_off v_len s_src s_off s_data].
-      rewrite skipn_length. lia.
-  - pose proof (payload_slice6_spec bs h ws payload cap Hb Eh Fc Elen Hcap Hd) as Hps.
+    + split; [constructor; [|constructor]|].
+      * unfold view_ok, view_of, in_buf. cbn [v_src v_off v_len s_src s_off s_data]. rewrite skipn_length. lia.
+      * right. cbn [packet_bytes_ok6]. apply bytes_ok_skipn, Hpb.
+  - pose proof (payload_slice6_spec bs h ws payload cap ocap Hb Eh Fc Elen Hcap Hd) as Hps.
     destruct (payload_slice6 decomp bs (Some cap) (ph6_flags h) payload) as [p|e|s|]; try contradiction.
     + destruct Hps as [Hs _]. apply read_payload6_spec; assumption.
     + exact I.
 Qed.
 
 End Total.
+
+Section Rewrite.
+Variables comp decomp : HuffC.
+Hypothesis huff_rt : forall x c y, bytes_ok x = true -> comp x c = Some y ->
+  forall c', (length x <= c')%nat -> decomp y c' = Some x.
+(* the decoder stays within its capacity and produces bytes *)
+Hypothesis decomp_ok : forall y c d, decomp y c = Some d -> (length d <= c)%nat /\ bytes_ok d = true.
+
+(* whatever read accepts (outside class K06) is written again and read back as the same value *)
+Theorem accept_rewrite6 bs hint cap ws p vs : bytes_ok bs = true -> (1400 <= cap)%nat ->
+  read6 decomp bs hint cap = (ws, Ok (p, vs)) -> K06_6 p = false ->
+  forall cap', (1400 <= cap')%nat ->
+  exists out, write6 comp p cap' = Ok out /\ (length out <= 1400)%nat
+    /\ exists ws' vs', read6 decomp out (true_hint6 p) cap = (ws', Ok (p, vs')).
+Proof.
+  intros Hb Hcap Er Hk cap' Hcap'.
+  pose proof (read6_good decomp bs hint cap (Some cap) Hb Hcap (conj eq_refl decomp_ok)) as Hg.
+  rewrite Er in Hg. unfold good_result6 in Hg. cbn [snd] in Hg. destruct Hg as (Hx & _ & [Hn|Hpb]); [discriminate Hn|].
+  destruct (write6_ok comp p cap' Hx Hk Hcap') as [Ew Hl].
+  exists (encoding6 comp p). split; [exact Ew|]. split; [exact Hl|].
+  eexists. eexists. apply (read_encoding6 comp decomp huff_rt p cap Hx Hpb Hcap).
+Qed.
+
+(* class K06: such a value is refused by the writer *)
+Theorem K06_refused6 p cap : K06_6 p = true -> write6 comp p cap = Err WE6TooLongData.
+Proof.
+  destruct p as [payload|ack tok ty]; cbn [K06_6]; [|discriminate].
+  intros H. unfold write6, write6_full, write_connless6. rewrite H. reflexivity.
+Qed.
+
+End Rewrite.
+
+(* and the reader does accept such values: 1391 payload bytes behind ff ff ff ff ff ff *)
+Lemma K06_accepted6 : exists bs p ws vs,
+  bytes_ok bs = true /\ read6 (fun _ _ => None) bs None 1400 = (ws, Ok (p, vs)) /\ K06_6 p = true.
+Proof.
+  exists (repeat 255 6 ++ repeat 1 1391). eexists. eexists. eexists.
+  split; [vm_compute; reflexivity|]. split; [vm_compute; reflexivity|vm_compute; reflexivity].
+Qed.
